@@ -205,6 +205,53 @@ def tlc(module, cfg=None, *, workers=4, env=None, timeout=1800, simulate=None, c
     return r
 
 
+def apalache(module, inv, timeout=300):
+    """symbolic check Init => inv (length 0) of /verif/spec/<module>.tla with Apalache; returns "NoError" (proved for all values
+    of the variables), "Error" (refuted: a counterexample exists) or "inconclusive: ..." (tool missing, timeout, unknown)"""
+    exe = shutil.which("apalache-mc")
+    if exe is None:
+        return "inconclusive: apalache-mc not found", 0.0
+    out_dir = scratch("apa_%s_%s" % (module, inv))
+    e = dict(os.environ)
+    e.pop("JAVA_TOOL_OPTIONS", None)
+    t0 = time.time()
+    try:
+        import signal
+        p = subprocess.Popen([exe, "check", "--init=Init", "--inv=" + inv, "--length=0", "--out-dir=" + out_dir,
+                              "--run-dir=" + os.path.join(out_dir, "run"), module + ".tla"],
+                             cwd=SPEC, env=e, stdout=subprocess.PIPE, stderr=subprocess.STDOUT, text=True, start_new_session=True)
+        try:
+            out, _ = p.communicate(timeout=timeout)
+            m = re.search(r"The outcome is: (\w+)", out)
+            verdict = m.group(1) if m else "inconclusive: no outcome line (rc=%s)" % p.returncode
+            if verdict not in ("NoError", "Error"):
+                verdict = "inconclusive: " + verdict
+        except subprocess.TimeoutExpired:
+            os.killpg(p.pid, signal.SIGKILL)          # the wrapper script's JVM too
+            p.communicate()
+            verdict = "inconclusive: timeout after %ss" % timeout
+    except OSError as ex:
+        verdict = "inconclusive: %s" % ex
+    shutil.rmtree(out_dir, ignore_errors=True)
+    return verdict, time.time() - t0
+
+
+def apalache_suite(rep, module, invs, note, timeout=600):
+    """the clauses of <module> for ALL values of its variables (symbolic); outcomes go to the evidence; a refuted clause means
+    the specification itself is wrong (machinery failure); an inconclusive run (tool missing, timeout) is recorded and tolerated:
+    the symbolic instances are an addition to the TLC instances, which every check runs anyway"""
+    from concurrent.futures import ThreadPoolExecutor
+    with ThreadPoolExecutor(max_workers=4) as ex:
+        verdicts = list(ex.map(lambda i: apalache(module, i, timeout=timeout), invs))
+    rep.extra.setdefault("apalache_unbounded", {})[module] = {i: {"outcome": v, "wall_s": round(w, 1)} for i, (v, w) in zip(invs, verdicts)}
+    for i, (v, _w) in zip(invs, verdicts):
+        if v == "Error":
+            raise MachineryError("%s: %s is refuted by Apalache" % (module, i))
+    if all(v == "NoError" for v, _ in verdicts):
+        rep.assumptions.append(note)
+    return verdicts
+
+
 def tlc_must_pass(res, what):
     """a model-level TLC run that must succeed; anything else is a machinery failure (exit 2)"""
     if not res.ok:
